@@ -111,8 +111,14 @@ def run(tier: str) -> int:
                                                Dev="FALSE", Emit="INVARIANT Emit"), "lex"),
                 gen_cfg("cfg/Lexer.tmpl", dict(T0="TextsHead", T1="TextsHead", T2="TextsHead", Bodies="BodiesQuick", First='{"raw"}',
                                                Second='{"output"}', Dev="TRUE", Emit=""), "lexdev")]
-        main, dev = run_many([("Lexer", cfgs[0], dict(workers=1, timeout=3000)),
-                              ("Lexer", cfgs[1], dict(workers=2, timeout=600, expect_violation=True))])
+        # paired constructs with an EMPTY body (raw / comment / doc / if), as first and as second markup
+        cfgs += [gen_cfg("cfg/Lexer.tmpl", dict(T0="TextsHead", T1="TextsQuick", T2="TextsTail", Bodies="BodiesEmpty", First='{"if","raw","comment","doc"}',
+                                                Second='{"output","short"}', Dev="FALSE", Emit="INVARIANT Emit"), "lexe1"),
+                 gen_cfg("cfg/Lexer.tmpl", dict(T0="TextsHead", T1="TextsQuick", T2="TextsTail", Bodies="BodiesEmpty", First='{"output","assign","if"}',
+                                                Second='{"raw"}', Dev="FALSE", Emit="INVARIANT Emit"), "lexe2")]
+        main, dev, e1, e2 = run_many([("Lexer", cfgs[0], dict(workers=1, timeout=3000)),
+                                      ("Lexer", cfgs[1], dict(workers=2, timeout=600, expect_violation=True)),
+                                      ("Lexer", cfgs[2], dict(workers=1, timeout=3000)), ("Lexer", cfgs[3], dict(workers=1, timeout=3000))])
     finally:
         cleanup_gen()
     ck.tlc("Lexer_" + tier, main)
@@ -122,10 +128,16 @@ def run(tier: str) -> int:
     if not dev.violated:
         raise MachineryError("deviation RawUsesOpeningMarker does not violate MechanismMeetsRequirement: vacuous")
     ck.cov["deviation_demo"] = "RawUsesOpeningMarker=TRUE violates " + dev.violated
+    for nm, r in (("empty bodies, first", e1), ("empty bodies, second", e2)):
+        ck.tlc("Lexer " + nm, r)
+        if r.violated:
+            ck.fail(f"Lexer.tla {r.violated} violated ({nm})", {"tlc": r.out[-3000:]})
+    extra_cases = e1.emitted + e2.emitted
     cases = main.emitted
-    cap = 36000 if tier == "quick" else 400000
+    cap = 20000 if tier == "quick" else 400000
     if len(cases) > cap:
         cases = rnd.sample(cases, cap)
+    cases = cases + extra_cases          # the empty-body families are always replayed in full
     jobs = [(c, i % 8) for i, c in enumerate(cases)]
     res = par.pmap(replay_one, jobs, chunk=256)
     for (case, variant), (src, exp, rr) in zip(jobs, res):
